@@ -507,7 +507,7 @@ FUZZ = dict(
 
 def budget(tier):
     if tier == 'quick':
-        return dict(examples=1600, wall=110)
+        return dict(examples=1600, wall=170)
     return dict(examples=40000, wall=1500)
 
 
